@@ -106,6 +106,54 @@ type shardRun struct {
 	cpuAtIdx float64
 	started  time.Time
 	deaths   int
+	// blocked-call detection: CPU time at the previous tick, and since when the worker has consumed none while none
+	// of its threads was runnable
+	cpuPrev      float64
+	blockedSince time.Time
+	quitSent     bool
+}
+
+// blockedSeconds: a worker whose current case has consumed no CPU time at all for this long, with every thread
+// asleep, is not slow - it is blocked (a starved process on a loaded machine is runnable, not asleep).
+const blockedSeconds = 90.0
+
+// allThreadsAsleep reports whether every thread of the process is in interruptible sleep.
+func allThreadsAsleep(pid int) bool {
+	ents, err := os.ReadDir(fmt.Sprintf("/proc/%d/task", pid))
+	if err != nil || len(ents) == 0 {
+		return false
+	}
+	for _, e := range ents {
+		b, err := os.ReadFile(fmt.Sprintf("/proc/%d/task/%s/stat", pid, e.Name()))
+		if err != nil {
+			return false
+		}
+		t := string(b)
+		i := strings.LastIndex(t, ")")
+		if i < 0 || i+2 >= len(t) {
+			return false
+		}
+		if st := t[i+2]; st != 'S' {
+			return false
+		}
+	}
+	return true
+}
+
+// blockedFrame finds, in a goroutine dump, the first pat-go function of a goroutine that is waiting.
+var reBlockedFrame = regexp.MustCompile(`(?m)^(github\.com/cloudflare/pat-go/[^\s(]+)`)
+
+func blockedFrame(dump string) string {
+	for _, g := range strings.Split(dump, "\n\ngoroutine ") {
+		head := firstLines(g, 1)
+		if !(strings.Contains(head, "chan ") || strings.Contains(head, "select") || strings.Contains(head, "semacquire") || strings.Contains(head, "sync.") || strings.Contains(head, "Lock") || strings.Contains(head, "Wait")) {
+			continue
+		}
+		if m := reBlockedFrame.FindStringSubmatch(g); m != nil {
+			return m[1]
+		}
+	}
+	return ""
 }
 
 const stallCPUSeconds = 600.0
@@ -255,6 +303,32 @@ func driverMain(args []string) int {
 				}
 			}
 			class := classifyDeath(tail)
+			if sr.quitSent {
+				full, _ := os.ReadFile(sr.stderr)
+				dump := string(full)
+				if len(dump) > 4<<20 {
+					dump = dump[:4<<20]
+				}
+				if fr := blockedFrame(dump); fr != "" {
+					v := Violation{Case: int64(idx), Key: "blocked:" + fr, What: fmt.Sprintf("a call did not return: the worker consumed no CPU time for %.0f s with every thread asleep, and a goroutine is waiting inside %s", blockedSeconds, fr),
+						Detail: map[string]any{"journal_note": note, "waiting_in": fr, "goroutine_dump_head": firstLines(dump, 60)}}
+					merged.Violations = append(merged.Violations, v)
+				} else {
+					inconclusive = append(inconclusive, fmt.Sprintf("shard %d blocked in case %d with no goroutine waiting inside pat-go (the monitor itself)", sr.shard, idx))
+				}
+				sr.deaths++
+				if sr.deaths > 3 {
+					inconclusive = append(inconclusive, fmt.Sprintf("shard %d blocked %d times; rest of its cases not run", sr.shard, sr.deaths))
+					continue
+				}
+				if int64(idx) > sr.from {
+					launch(&shardRun{shard: sr.shard, from: sr.from, to: int64(idx) - 1, deaths: 99})
+				}
+				if int64(idx) < sr.to {
+					launch(&shardRun{shard: sr.shard, from: int64(idx) + 1, to: sr.to, deaths: sr.deaths})
+				}
+				continue
+			}
 			if idx == ^uint64(0) {
 				inconclusive = append(inconclusive, fmt.Sprintf("shard %d died before its first case: %s: %s", sr.shard, what, firstLines(tail, 6)))
 				continue
@@ -301,8 +375,25 @@ func driverMain(args []string) int {
 				if idx != sr.lastIdx {
 					sr.lastIdx = idx
 					sr.cpuAtIdx = cpu
+					sr.cpuPrev = cpu
+					sr.blockedSince = time.Time{}
 					continue
 				}
+				if cpu-sr.cpuPrev < 0.02 && idx != ^uint64(0) && allThreadsAsleep(pid) {
+					if sr.blockedSince.IsZero() {
+						sr.blockedSince = time.Now()
+					} else if !sr.quitSent && time.Since(sr.blockedSince).Seconds() > blockedSeconds {
+						if f, err := os.OpenFile(sr.stderr, os.O_APPEND|os.O_WRONLY, 0o644); err == nil {
+							fmt.Fprintf(f, "\nVERIF-WATCHDOG-BLOCKED: no CPU time consumed and no runnable thread for %.0f s; goroutine dump follows\n", blockedSeconds)
+							f.Close()
+						}
+						sr.quitSent = true
+						sr.cmd.Process.Signal(syscall.SIGQUIT)
+					}
+				} else {
+					sr.blockedSince = time.Time{}
+				}
+				sr.cpuPrev = cpu
 				if cpu-sr.cpuAtIdx > stallCPUSeconds {
 					f, err := os.OpenFile(sr.stderr, os.O_APPEND|os.O_WRONLY, 0o644)
 					if err == nil {
